@@ -23,4 +23,8 @@ theorem C12_collections_concurrent : Gen.collectionsConcurrentWhenThreadSafe = t
     operations lock every bucket first (the lock discipline assumed by C18) -/
 theorem C12_lock_discipline : Gen.bucketOpsTakeLockFirst = true := by decide
 
+/-- the connected handler, which a plain TCP server runs outside the connection's strand, finishes before the first
+    read of the connection is started: no other handler of that connection can run beside it -/
+theorem C12_connected_before_reception : Gen.connectedBeforeReception = true := by decide
+
 end Via
